@@ -51,6 +51,10 @@ CLAIMED["C12"] = ("mirsym over partition_nodes_into_groups (one loop step from a
     "bounded symbolic model checking of the kernels: a group boundary is opened iff first / after Other / kind differs / more than one line after the END of the previous require; Skip or NotInRange members block sorting; sortable groups get one stable sort_by_key; the new first member keeps its own leading trivia; sorting runs iff enabled",
     "trusts rustc's MIR printer, mirsym, z3, std's stable sort; get_expression_kind's string tests and update_positions are outside", "5/C12")
 
+CLAIMED["C20"] = ("mirsym over load_overrides (bin MIR, convert_enum! conversions inlined, one flag at a time + all flags wired) and editorconfig::load (lib MIR with the editorconfig feature, Properties::get::<K>() symbolic per key); z3 against the same-name / documented mapping; three-carrier replay",
+    "bounded symbolic model checking of the mapping kernels: every Config field after overrides = the flag's same-named variant if present else the configuration's; every editorconfig key sets exactly its documented field; nothing else changes",
+    "trusts rustc's MIR printer, mirsym, z3; serde/toml decoding, deny_unknown_fields, clap's string->enum parsing and ec4rs are outside the encoding (carrier replay only)", "5/C15-C20")
+
 NOT_YET = {}
 
 NA = {
